@@ -97,7 +97,9 @@ def is_pure(e, depth=0):
 
 
 def free_names(e):
-    return {n.id for n in ast.walk(e) if isinstance(n, ast.Name)}
+    bound = {t.id for c in ast.walk(e) if isinstance(c, ast.comprehension) for t in ast.walk(c.target) if isinstance(t, ast.Name)}
+    bound |= {a.arg for l in ast.walk(e) if isinstance(l, ast.Lambda) for a in l.args.args}
+    return {n.id for n in ast.walk(e) if isinstance(n, ast.Name)} - bound
 
 
 def bound_names(fn, defs=None):
@@ -870,9 +872,18 @@ class ModuleNormaliser:
             if d:
                 chains.add(d)
         subs = {" ".join(ast.unparse(n.value).split()) for n in ast.walk(E) if isinstance(n, ast.Subscript)}
+        # the targets of the assignment that contains the last use are stored *after* its value is evaluated
+        late = set()
+        last_use = max(uses, key=lambda u: u._ord)
+        p_ = parent.get(id(last_use))
+        while p_ is not None and not isinstance(p_, ast.stmt):
+            p_ = parent.get(id(p_))
+        if isinstance(p_, (ast.Assign, ast.AnnAssign)) and p_.value is not None and any(x is last_use for x in ast.walk(p_.value)):
+            for t in (p_.targets if isinstance(p_, ast.Assign) else [p_.target]):
+                late |= {id(x) for x in ast.walk(t)}
         for n in ast.walk(fn):
             o = getattr(n, "_ord", None)
-            if o is None or o <= st._ord or o > last:
+            if o is None or o <= st._ord or o > last or id(n) in late:
                 continue
             if isinstance(n, ast.Attribute) and isinstance(n.ctx, (ast.Store, ast.Del)) and n.attr in attrs:
                 return False
